@@ -4,6 +4,7 @@ import (
 	"encoding/json"
 	"fmt"
 	"os"
+	"runtime"
 	"sort"
 	"strings"
 	"testing"
@@ -63,6 +64,32 @@ func timed(what string, budget time.Duration, f func()) string {
 		return ""
 	case <-time.After(budget):
 		return what + " did not return within " + budget.String()
+	}
+}
+
+// timedMem: timed, and the heap is watched while f runs (a walk of all paths that builds something
+// exhausts the memory long before the time).
+func timedMem(what string, budget time.Duration, maxHeap uint64, f func()) string {
+	done := make(chan struct{})
+	go func() { defer close(done); f() }()
+	deadline := time.After(budget)
+	tick := time.NewTicker(20 * time.Millisecond)
+	defer tick.Stop()
+	var ms runtime.MemStats
+	runtime.ReadMemStats(&ms)
+	base := ms.HeapAlloc
+	for {
+		select {
+		case <-done:
+			return ""
+		case <-deadline:
+			return what + " did not return within " + budget.String()
+		case <-tick.C:
+			runtime.ReadMemStats(&ms)
+			if ms.HeapAlloc > base+maxHeap {
+				return fmt.Sprintf("%s had not returned after allocating more than %d MiB", what, maxHeap>>20)
+			}
+		}
 	}
 }
 
@@ -441,6 +468,156 @@ func TestTypeGraphs(t *testing.T) {
 		}
 		if nt {
 			run.Sample(chk, map[string]any{"schema": sp.Schema, "types": sp.Types, "class": o.class, "check_accepted": o.accepted})
+		}
+	})
+}
+
+// ---------------------------------------------------------------------------------------
+// Layered acyclic graphs: n levels, a few types per level, every type refers to several types of
+// the next level (in several positions: properties, alternatives, key shortcuts, or rules). The
+// number of paths doubles with every level, the number of types grows by a constant: Check,
+// Validate and Example have to terminate on them ("on every accepted graph Check, Validate and
+// Example terminate") - with 30..44 levels a walk of all paths needs years, a walk of all types
+// needs microseconds, so the 20 s budget is no timing oracle.
+
+const chkLayered = "layered-type-graph"
+
+type LayeredCase struct {
+	Spec lib.Spec `json:"spec"`
+	Doc  string   `json:"doc"`
+	Form string   `json:"form"`
+}
+
+func init() {
+	run.RegisterReplay(chkLayered, func(t run.TB, raw json.RawMessage) {
+		var c LayeredCase
+		if err := json.Unmarshal(raw, &c); err != nil {
+			t.Fatalf("bad case: %v", err)
+		}
+		checkLayered(t, c)
+	})
+}
+
+func checkLayered(t run.TB, c LayeredCase) {
+	s, add := lib.Build(c.Spec)
+	if add.Panic != "" || !add.OK {
+		run.Fail(t, chkLayered, c, "AddType: %v", add)
+	}
+	var cr, vr, er lib.Res
+	var ex []byte
+	if msg := timed("Check", 20*time.Second, func() { cr = lib.Check(s) }); msg != "" {
+		run.Fail(t, chkLayered, c, "%s (an acyclic graph of %d types)", msg, len(c.Spec.Types))
+	}
+	if !cr.OK {
+		run.Fail(t, chkLayered, c, "Check refuses an acyclic graph whose types are all defined: %v", cr)
+	}
+	if msg := timed("Validate", 20*time.Second, func() { vr = lib.Validate(s, []byte(c.Doc)) }); msg != "" {
+		run.Fail(t, chkLayered, c, "%s (an acyclic graph of %d types, document %s)", msg, len(c.Spec.Types), c.Doc)
+	}
+	if vr.Panic != "" {
+		run.Fail(t, chkLayered, c, "Validate panicked: %v", vr)
+	}
+	// a call that does not return keeps allocating: the process is ended with the case recorded
+	if msg := timedMem("Example", 20*time.Second, 1<<30, func() { ex, er = lib.Example(s) }); msg != "" {
+		run.FailAndExit(chkLayered, c, "%s (an acyclic graph of %d small types)", msg, len(c.Spec.Types))
+	}
+	if !er.OK {
+		run.Fail(t, chkLayered, c, "Example fails on an accepted graph: %v", er)
+	}
+	if len(ex) > 1<<20 {
+		run.Fail(t, chkLayered, c, "Example of a graph of %d small types is %d bytes long", len(c.Spec.Types), len(ex))
+	}
+}
+
+func TestLayeredGraphs(t *testing.T) {
+	run.SkipIfReplaying(t)
+	defer run.Done(t, chkLayered)
+	rapid.Check(t, func(t *rapid.T) {
+		form := rapid.SampledFrom([]string{"key-shortcut-alternatives", "key-shortcut-or-rule", "object-properties", "object-properties-optional", "scalar-alternatives", "array-items"}).Draw(t, "form")
+		n := rapid.IntRange(30, 44).Draw(t, "levels")
+		know := rapid.Bool().Draw(t, "typesKnowTypes")
+		sp := lib.Spec{TypesKnowTypes: know}
+		name := func(p string, i int) string { return fmt.Sprintf("@%s%d", p, i) }
+		doc := "1"
+		for i := 0; i < n; i++ {
+			for _, p := range []string{"l", "m"} {
+				var text string
+				last := i == n-1
+				a, b := name("l", i+1), name("m", i+1)
+				switch form {
+				case "key-shortcut-alternatives":
+					text = a + " | " + b
+					if last {
+						text = `"k"`
+					}
+				case "key-shortcut-or-rule":
+					text = fmt.Sprintf(`"k" // {or: [%q, %q]}`, a, b)
+					if last {
+						text = `"k"`
+					}
+				case "object-properties":
+					text = fmt.Sprintf("{\n  \"a\": %s,\n  \"b\": %s\n}", a, b)
+					if last {
+						text = "1"
+					}
+				case "object-properties-optional":
+					text = fmt.Sprintf("{\n  \"a\": %s, // {optional: true}\n  \"b\": %s // {optional: true}\n}", a, b)
+					if last {
+						text = "1"
+					}
+				case "scalar-alternatives":
+					text = a + " | " + b
+					if last {
+						text = map[string]string{"l": "1", "m": `"s"`}[p]
+					}
+				case "array-items":
+					text = fmt.Sprintf("[\n  %s,\n  %s\n]", a, b)
+					if last {
+						text = "1"
+					}
+				}
+				sp.Types = append(sp.Types, lib.Named{Name: name(p, i), Text: text})
+			}
+		}
+		switch form {
+		case "key-shortcut-alternatives", "key-shortcut-or-rule":
+			sp.Schema = "{\n  @l0: 1\n}"
+			doc = rapid.SampledFrom([]string{`{"k":1}`, `{"k":1,"other":1}`, `{"x":1}`}).Draw(t, "doc")
+		case "object-properties", "object-properties-optional":
+			sp.Schema = "@l0"
+			doc = rapid.SampledFrom([]string{`{}`, `{"a":{}}`, `{"a":{"a":{"b":{}}},"b":{}}`, `1`}).Draw(t, "doc")
+		case "scalar-alternatives":
+			sp.Schema = "@l0 | @m0"
+			doc = rapid.SampledFrom([]string{`1`, `"s"`, `true`, `{}`}).Draw(t, "doc")
+		case "array-items":
+			sp.Schema = "@l0"
+			doc = rapid.SampledFrom([]string{`[]`, `[[],[]]`, `[[[1]]]`, `1`}).Draw(t, "doc")
+		}
+		c := LayeredCase{Spec: sp, Doc: doc, Form: form}
+		if form == "object-properties" || form == "array-items" {
+			// every path is part of the one document such a schema describes: its example has 2^n
+			// leaves, nothing to terminate early - only Check is asked
+			s, add := lib.Build(sp)
+			if add.Panic != "" || !add.OK {
+				run.Fail(t, chkLayered, c, "AddType: %v", add)
+			}
+			var cr lib.Res
+			if msg := timed("Check", 20*time.Second, func() { cr = lib.Check(s) }); msg != "" {
+				run.Fail(t, chkLayered, c, "%s (an acyclic graph of %d types)", msg, len(sp.Types))
+			}
+			if !cr.OK {
+				run.Fail(t, chkLayered, c, "Check refuses an acyclic graph whose types are all defined: %v", cr)
+			}
+		} else {
+			checkLayered(t, c)
+		}
+		run.Eval(chkLayered, true, form, fmt.Sprint(n), fmt.Sprint(know), doc)
+		run.Label("layered:" + form)
+		if know {
+			run.Label("layered:types-know-types")
+		}
+		if n == 30 {
+			run.Sample(chkLayered, map[string]any{"form": form, "levels": n, "schema": sp.Schema, "first_type": sp.Types[0]})
 		}
 	})
 }
